@@ -1,5 +1,6 @@
 """C01 End-to-end transparency of the tunnel: wiring skeleton (entry points, UDP reply routing, reserved id)."""
 from an import (Tracer, guard_at, strip, strip_casts, walk, fmt, callee, const_eval, Inter)
+from muxcommon import derives_from_call, credit_leak_after_take
 from mir import loc_str
 import rules_c03, rules_c18
 
@@ -503,3 +504,53 @@ def check(facts, rep, tier, cfg):
             rep.ok("C01.R11", "%s/%s" % (i["rule"], i["key"]), i["where"], i["detail"], nontrivial=False)
         for v in sub.violations:
             rep.bad("C01.R11", v["key"], v["where"], v["msg"])
+    # ---- R12 / R2: shared slots of the request channel are not held by handlers that request no stream; liveness refresh of UDP clients
+    if has_client:
+        rep.rule("C01.R12", "a stream-request permit (slot of the bounded request channel shared by all entry points) is never held, unused, while "
+                            "another in-crate async session (one that does not receive the permit) is awaited")
+        k12 = 0
+        for b in crate.bodies:
+            if "/src/client/" not in b.file:
+                continue
+            res = [bi for bi, t in b.calls() if callee(t) and callee(t)["name"] == "reserve" and "StreamCommand" in callee(t)["path"] and not b.blocks[bi]["cleanup"]]
+            if not res:
+                continue
+            tr = Tracer(facts, b)
+            for r in res:
+                k12 += 1
+                rep.analysed(b)
+                where = "%s (%s)" % (loc_str(b.term(r)["loc"]), b.path)
+                uses = set(bi for bi, t in b.calls() if bi != r and callee(t) and callee(t)["name"] not in ("branch", "poll", "into_future", "new_unchecked", "get_context", "or", "map_err", "from_residual")
+                           and any(derives_from_call(tr.operand(a), r) for a in t["args"]))
+                # the permit local(s): results of the Try/unwrap chain on the reserve future
+                held = b.reachable_from(b.term(r)["t"], cut=uses) if b.term(r).get("t") is not None else set()
+                sessions = []
+                for x in sorted(held):
+                    t = b.term(x)
+                    c = callee(t) if t["k"] == "Call" else None
+                    if not c:
+                        continue
+                    dp = c.get("res") or c["dp"]
+                    cb = facts.by_dp.get(dp)
+                    if cb is None or cb.crate is not crate:
+                        continue
+                    from an import nested_bodies
+                    is_async = any(nb.term(q)["k"] == "Yield" for nb in nested_bodies(facts, cb) for q in range(len(nb.blocks)))
+                    if is_async and not any(derives_from_call(tr.operand(a), r) for a in t["args"]):
+                        sessions.append((x, c["path"]))
+                if not sessions:
+                    rep.ok("C01.R12", "permit-not-parked/%s" % b.path.split("::{")[0], where, "no in-crate async session runs while an unused permit is held")
+                else:
+                    rep.bad("C01.R12", "permit-not-parked/%s" % b.path.split("::{")[0], "%s (%s)" % (loc_str(b.term(sessions[0][0])["loc"]), b.path),
+                            "a permit reserved on the shared stream-request channel (%s) is still held, unused, while `%s` runs: every such long-lived "
+                            "session occupies one of the few slots and, with enough of them, new TCP connections through any entry point hang" % (
+                                loc_str(b.term(r)["loc"]), sessions[0][1]))
+        rep.floor("C01.R12", "permit reservations in client handlers", k12, 2)
+        for fname, what in (("add_udp_client", "a datagram from a known local client"), ("send_datagram_reply", "a reply delivered to a local client")):
+            fb = [b for b in crate.bodies if b.name == fname or b.path.endswith("%s::{closure#0}" % fname)]
+            hit = [b for b in fb if any(callee(t) and callee(t)["name"] == "refresh" for _, t in b.calls())]
+            if hit:
+                rep.ok("C01.R2", "refresh/%s" % fname, "%s (%s)" % (loc_str(hit[0].loc), hit[0].path), "%s extends the entry's expiry" % what)
+            else:
+                rep.bad("C01.R2", "refresh/%s" % fname, "", "%s does not refresh the client-id entry: an active client is pruned and the replies still "
+                                                            "addressed to its old flow id are dropped" % what)
